@@ -4,7 +4,7 @@
 From Coq Require Import List NArith ZArith QArith Qcanon.
 From Coq Require Extraction.
 From Coq Require Import ExtrOcamlBasic.
-From BSpl Require Import Scalar Outcome Support Poly Spline Ops Forms Generator Interp Solver Pool Instances Instances_Ext.
+From BSpl Require Import Scalar Outcome Support Poly Spline Ops Forms Generator Interp Solver Pool Instances Instances_Ext Instances_Pair.
 
 Definition qstep : state Qc -> op Qc -> state Qc * outcome (obs Qc) :=
   @step Qc QcOps (@gauss_solve Qc QcOps).
@@ -16,4 +16,8 @@ Definition qc_den (x : Qc) : positive := Qden (this x).
 Definition xgrid_ctor (l : list ext) : outcome (list ext) := @grid_ctor ext ExtOps l.
 Definition xgen_ctor1 (l : list ext) : outcome (@generator ext) := @gen_ctor1 ext ExtOps l.
 
-Extraction "model.ml" qstep mk_qc qc_num qc_den xgrid_ctor xgen_ctor1.
+(* the pair world: exact value and magnitude, for the rounding-level validation of C16 *)
+Definition pstep : state pq -> op pq -> state pq * outcome (obs pq) :=
+  @step pq PairOps (@gauss_solve pq PairOps).
+
+Extraction "model.ml" qstep mk_qc qc_num qc_den xgrid_ctor xgen_ctor1 pstep mk_pq.
